@@ -6,6 +6,7 @@ import (
 	"crypto/rsa"
 	"os"
 	"path/filepath"
+	"time"
 
 	"github.com/DataDog/datadog-go/v5/statsd"
 	"github.com/labstack/echo/v4"
@@ -31,6 +32,9 @@ type FullHub struct {
 }
 
 var sharedKey *rsa.PrivateKey
+
+// lease timeout used by hubs opened after it is set (0 = the hub's default of 1h)
+var fullHubLeaseTimeout time.Duration
 
 // writeNodeKey pre-seeds a 2048-bit node key (the hub would generate a 4096-bit one, which is slow).
 func writeNodeKey(secDir string) {
@@ -64,6 +68,7 @@ func OpenFullHub(dir string, secure bool) *FullHub {
 		Port:                    "0",
 		Auth:                    &conf.AuthConfig{Middleware: mw},
 		RunnerConfig:            &conf.RunnerConfig{PoolIncremental: 10, PoolFull: 5, Concurrent: 0},
+		FullsyncLeaseTimeout:    fullHubLeaseTimeout,
 	}
 	fh := &FullHub{SecDir: secDir}
 	fh.Dir = dir
